@@ -208,7 +208,7 @@ def g(rng, lo=-8 * GRID, hi=8 * GRID):
     return rng.randint(lo, hi) / GRID
 
 
-KINDS = ['random', 'ties', 'repeats', 'outlier', 'equal', 'twovals', 'symmetric', 'sorted']
+KINDS = ['random', 'ties', 'repeats', 'outlier', 'equal', 'twovals', 'symmetric', 'sorted', 'manyties', 'offset', 'tiny']
 
 
 def gen_values(rng, n, kind):
@@ -227,6 +227,17 @@ def gen_values(rng, n, kind):
     elif kind == 'twovals':
         a, b = g(rng), g(rng)
         v = [rng.choice([a, b]) for _ in range(n)]
+    elif kind == 'manyties':
+        # two to four distinct values, each many times: ties on every order statistic, long runs of equal neighbours
+        pool = [g(rng) for _ in range(rng.randint(2, 4))]
+        v = [rng.choice(pool) for _ in range(n)]
+    elif kind == 'offset':
+        # a small spread on a large offset (1e6 + a grid value is exact in binary64): cancellation territory
+        off = rng.choice([1e6, -1e6, 1048576.0])
+        v = [off + x for x in gen_values(rng, n, rng.choice(['random', 'ties', 'twovals', 'sorted']))]
+    elif kind == 'tiny':
+        # subnormal scale: integer multiples of 2**-1070 (exact; every product underflows)
+        v = [rng.randint(-4096, 4096) * 2.0 ** -1070 for _ in range(n)]
     elif kind == 'symmetric':
         c = g(rng)
         half = [abs(g(rng)) for _ in range(n // 2)]
@@ -239,6 +250,8 @@ def gen_values(rng, n, kind):
 
 def gen_len(rng, tier, big=400):
     r = rng.random()
+    if big >= 400 and r > 0.97:
+        return rng.choice([400, 399, 397, 256, rng.randint(300, 400)])
     if r < 0.25:
         return rng.randint(1, 6)
     if r < 0.65:
@@ -318,7 +331,7 @@ def check_unweighted(ck, consts):
     from cnvlib import descriptives as D
     rng = ck.rng
     quick = ck.tier == 'quick'
-    n_cases = 320 if quick else 2600
+    n_cases = 285 if quick else 2600
     max_iter = consts['biloc_max_iter']
     # exact rational biweights are expensive (the rationals of an iterate have thousands of bits): the model is
     # compared on every short vector and on a sample of long ones; the direct oracles run on all of them
@@ -333,6 +346,8 @@ def check_unweighted(ck, consts):
     for i in range(n_cases):
         kind = rng.choice(KINDS)
         n = gen_len(rng, ck.tier)
+        if kind == 'tiny':
+            n = min(n, 40)
         v = gen_values(rng, n, kind)
         if rng.random() < 0.15:
             v = add_nans(rng, v)
@@ -376,7 +391,8 @@ def check_unweighted(ck, consts):
                 if not close(b, pub):
                     ck.violation('biweight_location differs from the published (Beers et al. 1990) iteration', case,
                                  code=b, expected=pub, clause='C19_defs')
-                if n <= N_BILOC or ci in big_sel:
+                if (n <= N_BILOC or ci in big_sel) and not kind.startswith('tiny'):
+                    # (subnormal-scale data: the direct oracles only -- rationals with 2^1070 denominators to the 8th power)
                     r['its'] = code_iterates(D, v, None, max_iter)
                     # every step of the code against one exact (Fraction) step of the published iteration
                     prev = t_median(fv)
@@ -393,7 +409,7 @@ def check_unweighted(ck, consts):
         ests = [('mad', D.median_absolute_deviation, lambda x: F(1.4826) * t_mad(x)),
                 ('iqr', D.interquartile_range, lambda x: t_percentile(x, 75) - t_percentile(x, 25)),
                 ('gapper', D.gapper_scale, lambda x: t_gapper_nopi(x) * F(sqrt_pi))]
-        do_qn = n <= 40 or (not quick and (n <= 90 or ci % 40 == 0)) or (quick and ci in big_sel)
+        do_qn = (n <= 40 or (not quick and (n <= 90 or ci % 40 == 0)) or (quick and ci in big_sel)) and not (kind.startswith('tiny') and n > 16)
         if do_qn:
             ests.append(('qn', D.q_n, t_qn))
         for nm, f, tb in ests:
@@ -464,9 +480,11 @@ def check_unweighted(ck, consts):
                 if isinstance(r[key], Err) or not close(r[key], exp):
                     ck.violation('mean_squared_error differs from mean((a - %s)^2)' % ref, case, code=r[key], expected=exp,
                                  clause='C19_defs')
-        # --- mode
-        r['mode'] = call(D.modal_location, v)
-        if n >= 1:
+        # --- mode (not on subnormal-scale data: the KDE's covariance underflows there -- finding
+        #     modal-location-variance-underflow, reported on its canonical case only)
+        tiny_spread = kind.startswith('tiny') and n >= 2 and len(set(cv)) > 1
+        r['mode'] = call(D.modal_location, v) if not tiny_spread else None
+        if n >= 1 and not tiny_spread:
             m = r['mode']
             if isinstance(m, Err) or not finite(m):
                 ck.violation('modal_location fails / is not finite', case, code=m, clause='C19_mode_range')
@@ -498,6 +516,14 @@ def check_unweighted(ck, consts):
     m_mse = batch('c19_mse', [[a, None] for a in A])
     m_mse0 = batch('c19_mse', [[a, 0.5] for a in A])
     m_mode = batch('c19_mode', [[c['a'], mode_index(cv)] for c, cv, _ in rec])
+    # the canonical case of the finding modal-location-variance-underflow
+    canon = {'a': [0.0, 1e-170, 2e-170, 5e-170]}
+    mc_ = call(D.modal_location, canon['a'])
+    ck.count(['mode-underflow-canonical', canon], nontrivial=True, cls='uw:mode-variance-underflow')
+    if isinstance(mc_, Err) or not finite(mc_) or not (min(canon['a']) <= mc_ <= max(canon['a'])):
+        ck.violation('modal_location fails on distinct finite values whose sample variance underflows to 0 '
+                     '(singular covariance in scipy.stats.gaussian_kde)', canon, code=mc_, clause='C19_mode_range',
+                     sig='modal-location-variance-underflow')
     # biweight location: trivial lengths through the function itself, the loop through the chain on the code's iterates
     triv = [i for i, (_, cv, _) in enumerate(rec) if len(cv) <= 1]
     m_triv = dict(zip(triv, batch('c19_biloc', [[A[i], None] for i in triv])))
@@ -574,13 +600,19 @@ def check_unweighted(ck, consts):
             cmp_model(ck, 'q_n', c, r['qn'], m_qn[i])
         cmp_model(ck, 'mean_squared_error', c, r['mse'], m_mse[i])
         cmp_model(ck, 'mean_squared_error(initial=0.5)', c, r['mse0'], m_mse0[i])
-        cmp_model(ck, 'modal_location', c, r['mode'], m_mode[i])
+        if r['mode'] is not None:
+            cmp_model(ck, 'modal_location', c, r['mode'], m_mode[i])
+    # the Coq Spec's published gapper formula (Spec/Stats.v gapperQ, C19_defs_gapper) against the Python textbook oracle
+    sg_ = [(c, cv) for c, cv, _ in rec[::5] if 2 <= len(cv) <= 24][:40]
+    for (c, cv), sp_ in zip(sg_, batch('c19_spec_gapper', [cv for _, cv in sg_])):
+        if isinstance(sp_, Err) or F(sp_) != t_gapper_nopi([fr(x) for x in cv]):
+            raise RuntimeError('Spec gapperQ differs from the harness oracle on %r: %r' % (cv, sp_))
     # MAD without scaling; biweight location / midvariance with an explicit start
     sub = rec[::7]
     m1 = batch('c19_mad', [[c['a'], False] for c, _, _ in sub])
     for (c, cv, r), a1 in zip(sub, m1):
         cmp_model(ck, 'median_absolute_deviation(scale_to_sd=False)', c, call(D.median_absolute_deviation, c['a'], scale_to_sd=False), a1)
-    sub2 = [(c, cv) for c, cv, _ in sub if 2 <= len(cv) <= N_BIVAR]
+    sub2 = [(c, cv) for c, cv, _ in sub if 2 <= len(cv) <= N_BIVAR and not c['kind'].startswith('tiny')]
     its2 = [code_iterates(D, c['a'], 0.25, max_iter) for c, _ in sub2]
     m2 = batch('c19_biloc_chain', [[c['a'], 0.25, it] for (c, _), it in zip(sub2, its2)])
     m3 = batch('c19_bivar', [[c['a'], 0.25] for c, _ in sub2])
@@ -688,12 +720,26 @@ def check_weighted(ck, consts):
     ck.extra['exhaustive_scope'] = ('weighted_median on all (value, weight) vectors of length <= %d over {0,1,2,3} x {0,1,2}: '
                                     '%d cases' % (L, count))
     n_exh = len(rec)
+    # the finding wmad-negative-scale-zero-weight-tie, on its canonical case only: a zero weight on the half-weight tie
+    canon = {'a': [0.0, 0.0, 1.0, 2.0], 'w': [2.0, 0.0, 2.0, 0.0], 'factor': -1.0}
+    e0 = call(D.weighted_mad, np.asarray(canon['a']), np.asarray(canon['w']))
+    e1 = call(D.weighted_mad, np.asarray(canon['a']) * canon['factor'], np.asarray(canon['w']))
+    ck.count(['wmad-neg-canonical', canon], nontrivial=True, cls='weighted:wmad-negative-zero-tie')
+    if isinstance(e0, Err) or isinstance(e1, Err) or not close(e1, abs(canon['factor']) * e0):
+        ck.violation('weighted_mad is not proportional under a negative factor when a zero weight sits on the half-weight tie '
+                     '(the tie midpoint averages with a zero-weight neighbour, and which one flips under negation)', canon,
+                     code=e1, expected=e0, clause='C19_wmad_scale', sig='wmad-negative-scale-zero-weight-tie')
+    mc = vlib.model_batch('c19_wmad', [[canon['a'], canon['w'], True], [[x * canon['factor'] for x in canon['a']], canon['w'], True]])
+    for code_, m_ in zip((e0, e1), mc):
+        cmp_model(ck, 'weighted_mad (canonical zero-weight tie)', canon, code_, m_)
     # random stream
     n_cases = 500 if ck.tier == 'quick' else 5000
     for i in range(n_cases):
         kind = rng.choice(KINDS)
         wkind = rng.choice(WKINDS)
         n = gen_len(rng, ck.tier)
+        if kind == 'tiny':
+            n = min(n, 40)
         a = gen_values(rng, n, kind)
         w = gen_weights(rng, n, wkind)
         if rng.random() < 0.1:
@@ -757,6 +803,16 @@ def check_weighted(ck, consts):
             if isinstance(ek, Err) or not close(ek, abs(k) * e):
                 ck.violation('%s is not proportional under rescaling' % nm, dict(case, factor=k), code=ek, expected=abs(k) * e,
                              clause='C19_%s_scale' % nm)
+            # negative factors: proved for strictly positive weights away from near-ties (C19_wmad_scale_positive); a zero
+            # weight on the tie is the recorded finding and is left to its canonical case
+            if nm == 'wmad' and nn >= 2 and all(y > 0 for _, y in ps):
+                kneg = float(rng.choice([-1.0, -3.0, -0.5]))
+                if wmedian_guard(ps, eps) and wmedian_guard([(x * F(kneg), y) for x, y in ps], eps):
+                    ekn = call(f, an * kneg, wn.copy())
+                    ck.cls('weighted:wmad-negative-factor')
+                    if isinstance(ekn, Err) or not close(ekn, abs(kneg) * e):
+                        ck.violation('weighted_mad is not proportional under a negative factor (all weights > 0)',
+                                     dict(case, factor=kneg), code=ekn, expected=abs(kneg) * e, clause='C19_wmad_scale')
         rec.append((case, r))
     # ---- model comparison
     ins_ord, ins_stable, idx_stable = [], [], []
@@ -886,6 +942,8 @@ def check_smoothers(ck, consts):
     for i in range(n_cases):
         kind = rng.choice(KINDS)
         n = gen_len(rng, ck.tier, big=400 if (not quick or i % 40 == 0) else 150)
+        if kind == 'tiny':
+            n = min(n, 40)
         width = gen_width(rng, n)
         # exact convolution with a normalised float window costs ~ n * window rational products: wide windows on long
         # signals are kept at a low rate
@@ -895,6 +953,7 @@ def check_smoothers(ck, consts):
         cases.append((kind, gen_values(rng, n, kind), width))
     wing_in, rm_in, ka_in, plan_in = [], [], [], []
     rec = []
+    spec_mw = []       # (request, expected) for the Coq Spec's mirrored_window (C19_rolling_median_is_median, C19_kaiser_convex)
     for kind, x, width in cases:
         n = len(x)
         xa = np.asarray(x, float)
@@ -943,6 +1002,9 @@ def check_smoothers(ck, consts):
                     if i >= n:
                         return x[2 * n - 1 - i]
                     return x[i]
+                if len(spec_mw) < 30:
+                    i_ = rng.randrange(n)
+                    spec_mw.append(([x, wing, i_], [refl(i_ + k) for k in range(-wing, wing + 1)]))
                 if not isinstance(r['rm'], Err) and len(r['rm']) == n:
                     exp = [sorted(refl(i + k) for k in range(-wing, wing + 1))[wing] for i in range(n)]
                     if [float(v) for v in r['rm']] != exp:
@@ -959,6 +1021,9 @@ def check_smoothers(ck, consts):
         wing_in.append([max(n, 0), width, fo])
         rm_in.append([x, width, fo])
         plan_in.append([n, [float(width), fo] + sgargs])
+    for (req, exp_), got in zip(spec_mw, vlib.model_batch('c19_spec_mirrored', [q for q, _ in spec_mw])):
+        if isinstance(got, Err) or [float(v) for v in got] != [float(v) for v in exp_]:
+            raise RuntimeError('Spec mirrored_window differs from the harness reflection on %r: %r' % (req, got))
     m_wing = vlib.model_batch('c19_wing', wing_in)
     m_rm = vlib.model_batch_parallel('c19_rolling_median', rm_in)
     m_plan = vlib.model_batch('c19_savgol_plan', plan_in)
@@ -1033,6 +1098,12 @@ def check_smoothers(ck, consts):
 
 
 def smooth_weights(rng, n, wkind):
+    if wkind in ('dominant50', 'dominant1000'):
+        # one weight 50 / 1000 times its neighbours: the negative Savitzky-Golay lobes make the normaliser negative there
+        base = rng.choice([1.0, 0.5, 0.25])
+        w = [base] * n
+        w[rng.randrange(n)] = base * (50.0 if wkind == 'dominant50' else 1000.0)
+        return w
     if wkind == 'fewzeros':
         w = gen_weights(rng, n, 'positive')
         for j in range(0, n, 3):
@@ -1048,7 +1119,7 @@ def check_smoothers_weighted(ck, consts):
     from scipy.signal import savgol_coeffs
     rng = ck.rng
     quick = ck.tier == 'quick'
-    n_cases = 55 if quick else 500
+    n_cases = 46 if quick else 500
     sgargs = [consts['sg_window'], consts['sg_order'], consts['sg_niter']]
     rec, plan_in = [], []
     # the open known finding: every weight under a window is zero -> 0/0
@@ -1063,12 +1134,18 @@ def check_smoothers_weighted(ck, consts):
         n = gen_len(rng, ck.tier, big=150 if not quick else 60)
         if quick and n > 60 and i % 10:
             n = rng.randint(8, 60)
+        if kind == 'tiny':
+            n = min(n, 30)
         x = gen_values(rng, n, kind)
         width = gen_width(rng, n)
         valid = (0 < width < 1) or (width >= 2 and int(width) == width)
         if not valid:
             width = 7
-        wkind = rng.choice(['positive', 'equal', 'smallint', 'dominant', 'fewzeros'])
+        wkind = rng.choice(['positive', 'equal', 'smallint', 'dominant', 'fewzeros', 'dominant50', 'dominant1000'])
+        if wkind in ('dominant50', 'dominant1000'):
+            n = max(n, rng.randint(8, 24))
+            x = gen_values(rng, n, kind)
+            width = rng.choice([7, 7, 9, 11, width])
         w = smooth_weights(rng, n, wkind)
         if n >= 2:
             # stay out of the open finding's region: no window of the mirrored, rolled-off weights without any weight
@@ -1096,6 +1173,46 @@ def check_smoothers_weighted(ck, consts):
     # the canonical case of the open finding goes through the model comparison too (the model yields None exactly there)
     rec.append((dict(canon, kind='canonical-zero-window'), y_canon, 0))
     plan_in.append([len(canon['x']), [float(canon['width']), 0] + sgargs])
+    # the boundary of that finding (C19_savgol_weighted_finite_iff): one pass, a run of zero weights at least as long as
+    # the window; the output must be finite EXACTLY where the windowed, coefficient-weighted weight sum N is not 0.
+    # Non-finite values where N = 0 are the recorded finding (not reported again); anything else is.
+    for i in range(8 if quick else 60):
+        n = rng.randint(10, 40)
+        x = gen_values(rng, n, rng.choice(['random', 'ties', 'sorted', 'equal']))
+        w = gen_weights(rng, n, 'positive')
+        lo = rng.randint(0, n - 7)
+        for j in range(lo, min(n, lo + rng.randint(7, 12))):
+            w[j] = 0.0
+        width = 7
+        case = {'x': x, 'w': w, 'width': width, 'kind': 'zero-window-boundary'}
+        ck.count(['smooth-w-boundary', x, w], nontrivial=True, cls='smoothw:zero-window-boundary')
+        y = call(S.savgol, np.asarray(x, float), width, weights=np.asarray(w, float))
+        _x, wing_, _s, pw_ = S.check_inputs(np.asarray(x, float), width, False, np.asarray(w, float))
+        co = [fr(c) for c in savgol_coeffs(min(consts['sg_window'], 2 * wing_ + 1), min(consts['sg_order'], min(consts['sg_window'], 2 * wing_ + 1) // 2))]
+        half_ = len(co) // 2
+        pwf = [fr(v) for v in pw_]
+        L = len(pwf)
+        # np.convolve(w, window, 'same')[p] = sum_k window[k] * w[p + half - k]
+        N = [sum(co[k] * pwf[p + half_ - k] for k in range(len(co)) if 0 <= p + half_ - k < L) for p in range(L)]
+        if any(0 < abs(N[p_]) < F(1, 10 ** 9) * max(pwf) for p_ in range(wing_, wing_ + n)):
+            # the decision N == 0 is within rounding (the Savitzky-Golay coefficients cancel exactly on small integer
+            # weights, e.g. -2/21 * 3 + 3/21 * 2): not compared (DESIGN 2, margin rule)
+            ck.float_ambiguous += 1
+            continue
+        if isinstance(y, Err) or len(y) != n:
+            ck.violation('savgol with weights fails / wrong length', case, code=y, clause='C19_length')
+        else:
+            for i_, v in enumerate(y):
+                if finite(v) != (N[i_ + wing_] != 0):
+                    if finite(v):
+                        ck.tie_break('savgol with weights is finite where the windowed weight sum is exactly 0', dict(case, index=i_),
+                                     code=v, model=None)
+                    else:
+                        ck.violation('savgol with weights is non-finite although the windowed weight sum is not 0',
+                                     dict(case, index=i_), code=v, expected=float(N[i_ + wing_]), clause='C19_length')
+                    break
+        rec.append((case, y, 0))
+        plan_in.append([n, [float(width), 0] + sgargs])
     m_plan = vlib.model_batch('c19_savgol_plan', plan_in)
     full, full_in, steps, step_in, ci_in, ci_code = [], [], [], [], [], []
     for i, ((case, y, fo), mp) in enumerate(zip(rec, m_plan)):
@@ -1148,6 +1265,9 @@ def check_smoothers_weighted(ck, consts):
     for i in full:
         case, y, fo = rec[i]
         ms = m_full[i]
+        if not isinstance(y, Err) and any(finite(v) and abs(v) > 1e6 * max(1.0, max(abs(t) for t in case['x'])) for v in y):
+            ck.float_ambiguous += 1          # a normaliser within rounding of 0: the quotient is not comparable at 1e-6
+            continue
         if isinstance(ms, Err) and ms.msg in ('decode', 'oracle contract', 'unknown entry'):
             raise RuntimeError('savgol_w: model rejected the request (%s) on %r' % (ms.msg, case))
         # normalisers can be tiny (negative Savitzky-Golay lobes): compare at the tolerance scaled by the data range
@@ -1171,7 +1291,7 @@ def check_helpers(ck, consts):
     beta = consts['kaiser_beta']
     # ---- convolve_unweighted(window, padded signal, wing, n_iter) and convolve_weighted(window, signal, weights, n_iter)
     cu_in, cu_code, cw_in, cw_code = [], [], [], []
-    for i in range(40 if quick else 400):
+    for i in range(34 if quick else 400):
         n = rng.randint(4, 40)
         wing = rng.randint(1, min(6, n - 1))
         x = gen_values(rng, n, rng.choice(KINDS))
@@ -1221,7 +1341,7 @@ def check_helpers(ck, consts):
         cmp_list(ck, 'convolve_weighted (weights)', case, w, m[1], tol=1e-6)
     # ---- guess_window_size: the scale estimate and n ** (4/5) are the code's own floats
     gw_in, gw_code = [], []
-    for i in range(60 if quick else 600):
+    for i in range(50 if quick else 600):
         n = rng.choice([2, 3, 4, 5, 8, 13, 30, 77, 150, 400, rng.randint(2, 400)])
         x = gen_values(rng, n, rng.choice(KINDS))
         sc = rng.choice([1.0, 1 / 8, 1 / 64, 1 / 512])        # small spreads: widths between 3 and n
@@ -1296,8 +1416,10 @@ def get_consts():
 
 def run(ck, scratch):
     ck.rule = ('vectors of length 1..400 on a 1/1024 grid (kinds: random, ties, repeats, one extreme outlier, all-equal, two values, '
-               'exactly symmetric, sorted; NaN inserted in 15% of estimator inputs) x weights (positive, one dominant, zeros, equal, '
-               'small integers, NaN weight, unequal lengths) x widths (fractions, integers incl. wider than the signal, malformed); '
+               'exactly symmetric, sorted, many ties (2-4 distinct values), a 1e6 offset, subnormal scale (multiples of 2^-1070, length <= 40); '
+               'NaN inserted in 15% of estimator inputs) x weights (positive, one dominant, zeros, equal, '
+               'small integers, NaN weight, unequal lengths; weighted savgol also one weight 50x / 1000x its neighbours and runs of zeros '
+               'as long as the window) x widths (fractions, integers incl. wider than the signal, malformed); '
                'exhaustive weighted median on all (value, weight) vectors of length <= 4 over {0,1,2,3} x {0,1,2}; every case: code '
                'output checked against the property clauses in exact Fractions + textbook formulas, then against the extracted Coq '
                'model (1e-9 relative). Iterated rational computations (biweight location, Savitzky-Golay passes, weighted convolution) '
@@ -1334,14 +1456,27 @@ UNPROVED = [
     'weighted median: "at most half the weight on either side" is proved exactly only when no running sum of the arranged weights lies '
     'within the rounding allowance n*2^-52*W of W/2 without being W/2 (C19_wmedian_halves), otherwise within that allowance '
     '(C19_wmedian_halves_tol; witness C19_wmedian_halves_strict_refuted); such near-tie inputs are counted float_ambiguous here',
-    'weighted median: the arrangement of equal values is taken from numpy (contract: a permutation sorted by value); the result is not '
-    'invariant under permuting equal values with different weights when a zero weight sits on the half (C19_wmedian_perm_refuted)',
+    'weighted median: numpy\'s arrangement of equal values is used only after the model has checked that it is a permutation sorted by '
+    'value (C19_arrange_pairs_sound; the model\'s own stable sort: C19_psort_sorted_perm); the result is not invariant under permuting '
+    'equal values with different weights when a zero weight sits on the half (C19_wmedian_perm_refuted); for strictly positive weights '
+    'away from near-ties it is a function of the multiset (C19_wmedian_unique / _determined / _perm_positive)',
     'weighted median with equal weights = median is proved for n^2 * 2^-52 < 1/2 (n < 2^25.5); beyond that the allowance exceeds half a weight',
-    'IQR and gapper: rescaling proved for k >= 0 (MAD, Q_n, variance for every k); gapper = its published sum formula and weighted MAD '
-    'shift/scale are sampled against the Fraction oracles, not proved',
+    'weighted MAD: shift and every non-negative factor proved for all non-negative weights; a negative factor only for strictly positive '
+    'weights away from near-ties of the two weighted medians (C19_wmad_scale_positive) -- with a zero weight on the tie it fails '
+    '(C19_wmad_scale_neg_refuted; open finding wmad-negative-scale-zero-weight-tie, canonical case only)',
     'biweight location is not exactly scale-equivariant (absolute epsilon 0.001 in the scale floor and the stop rule); the property does not claim it',
-    'weighted Savitzky-Golay: finite outputs proved (constant reproduced, one per input); finiteness itself fails where every weight under a '
-    'window is 0 (open finding savgol-weighted-zero-window)',
+    'weighted Savitzky-Golay: finite outputs proved (constant reproduced, one per input); an output is non-finite exactly where the '
+    'windowed, coefficient-weighted weight sum N is 0 at some pass (C19_savgol_weighted_finite_iff / _nonfinite), in particular where every '
+    'weight under a window is 0 (C19_zero_window_nonfinite; open finding savgol-weighted-zero-window); cases where a float N is within '
+    'rounding of 0 (exact cancellation of the coefficients on small integer weights) are counted float_ambiguous',
+    'modal_location raises LinAlgError when the sample variance of distinct values underflows to 0 (open finding '
+    'modal-location-variance-underflow, canonical case only): the subnormal-scale stream skips the mode, and runs the direct oracles but '
+    'not the rational biweight models (2^1070 denominators)',
+    'source ties (tools/fnspecs/descriptives.py, C19_source_*): the elementwise weight/mask transforms, the update rule, the '
+    'weighted-median midpoint / allowance / tie decision, the MAD scaling, the mse centring, _width2wing\'s arithmetic, guess_window_size '
+    'and savgol\'s parameter re-derivation are translated from the source; NOT translatable and tied by the correspondence only: chained '
+    'comparisons (0 < width < 1, 10 < n < 400), (1 - w_) ** 4, (w ** 2)[mask], the **kwargs wrappers on_array / on_weighted_array, '
+    'reductions and loops',
     'exact rational biweight iterations are compared through a chain replayed from the iterates of the code (and exactly end-to-end on short '
     'vectors that stop within 2 steps): the loop composition on long vectors is sampled, not exhaustively compared',
 ]
